@@ -20,7 +20,35 @@ fn mutate(cfg: &ScannerCfg, rng: &mut Rng, p: &GenParams) -> Option<(ScannerCfg,
     let mut c = cfg.clone();
     let mi = rng.below(c.modes.len());
     let np = c.modes[mi].pats.len();
-    match rng.below(10) {
+    match rng.below(12) {
+        10 => {
+            // the number of modes: the other configuration is a strict prefix of this one (or
+            // the other way round)
+            let last = c.modes.len() - 1;
+            let targeted = c.modes.iter().any(|m| m.trans.iter().any(|(_, t)| *t == last));
+            if c.modes.len() >= 2 && !targeted && rng.chance(1, 2) {
+                c.modes.pop();
+            } else {
+                let mut m = c.modes[mi].clone();
+                m.name.push_str("_extra");
+                c.modes.push(m);
+            }
+            Some((c, "mode_count"))
+        }
+        11 => {
+            // the number of patterns of a mode (prefix relation between the pattern lists)
+            if np >= 2 && rng.chance(1, 2) {
+                c.modes[mi].pats.pop();
+            } else {
+                let used: Vec<usize> = c.modes[mi].pats.iter().map(|p| p.tt).collect();
+                let mut t = rng.below(50);
+                while used.contains(&t) {
+                    t += 1;
+                }
+                c.modes[mi].pats.push(RefPattern { re: gen_non_nullable(rng, p), tt: t, la: None });
+            }
+            Some((c, "pattern_count"))
+        }
         0 => {
             // a token type
             let k = rng.below(np);
@@ -434,7 +462,7 @@ pub fn c13(tier: Tier) -> i32 {
     let per2 = if tier == Tier::Quick { 60 } else { 1_000 };
     res.merge(run_cases_subprocess(&ctx, 2, n2, per2));
     let mut report = Report::new(
-        "build sequences of 5-40 builds over a family of near-identical configurations: a base multi-mode configuration and variants differing in exactly one of token type / pattern order / lookahead presence / lookahead polarity / lookahead pattern / one transition / a mode name / mode order / a pattern text, an unrelated configuration, and failing configurations (syntax error or unsupported construct in the first, a later or a lookahead pattern), drawn with repetition so that every kind is built before and after its twins. Every build() result is compared with build_uncached() of the same configuration: Ok/Err agreement, mode 0, mode names, token streams on probe inputs in every mode, and the compiled automata (hook dump: names, transitions, priority order, language equivalence over all strings). Sequences run single-threaded in worker subprocesses (stream 1: 10 sequences per process, so many start in a fresh process; stream 2: 60 (quick) or 1000 (thorough) sequences per process, i.e. several hundred distinct configurations in one cache, with configurations built much earlier revisited at random); hook H3 counts the hits and misses actually taken. Distinct by hash of (family, sequence).",
+        "build sequences of 5-40 builds over a family of near-identical configurations: a base multi-mode configuration and variants differing in exactly one of token type / pattern order / lookahead presence / lookahead polarity / lookahead pattern / one transition / a mode name / mode order / a pattern text / the number of modes (one mode list a strict prefix of the other) / the number of patterns of a mode, an unrelated configuration, and failing configurations (syntax error or unsupported construct in the first, a later or a lookahead pattern), drawn with repetition so that every kind is built before and after its twins. Every build() result is compared with build_uncached() of the same configuration: Ok/Err agreement, mode 0, mode names, token streams on probe inputs in every mode, and the compiled automata (hook dump: names, transitions, priority order, language equivalence over all strings). Sequences run single-threaded in worker subprocesses (stream 1: 10 sequences per process, so many start in a fresh process; stream 2: 60 (quick) or 1000 (thorough) sequences per process, i.e. several hundred distinct configurations in one cache, with configurations built much earlier revisited at random); hook H3 counts the hits and misses actually taken. Distinct by hash of (family, sequence).",
     )
     .floor("builds", 8_000)
 
@@ -446,7 +474,7 @@ pub fn c13(tier: Tier) -> i32 {
     if cfg!(feature = "hooks") && std::env::var("VERIF_HOOKS").map_or(true, |v| v != "0") {
         report = report.floor("h3_hits", 2_000).floor("h3_misses", 2_000);
     }
-    for k in ["token_type", "pattern_order", "lookahead_presence", "lookahead_polarity", "lookahead_pattern", "transition", "mode_name", "mode_order", "pattern_text"] {
+    for k in ["token_type", "pattern_order", "lookahead_presence", "lookahead_polarity", "lookahead_pattern", "transition", "mode_name", "mode_order", "pattern_text", "mode_count", "pattern_count"] {
         let key: &'static str = Box::leak(format!("built_{}", k).into_boxed_str());
         report = report.floor(key, 100);
     }
